@@ -467,6 +467,16 @@ func boundedValue(c *Ctx, fn *ssa.Function, v ssa.Value, at *ssa.BasicBlock, dep
 	if g {
 		return true, "dominated by an upper-bound comparison"
 	}
+	// the smaller of two values is bounded when one of them is
+	if cl, ok := sv.(*ssa.Call); ok && depth < 5 {
+		if g := staticCallee(cl); g != nil && g.Name() == "Min" && len(cl.Call.Args) == 2 {
+			for _, a := range cl.Call.Args {
+				if ok, w := boundedValue(c, fn, a, at, depth+1); ok {
+					return true, "the smaller of two values, one of them bounded (" + w + ")"
+				}
+			}
+		}
+	}
 	if phi, ok := sv.(*ssa.Phi); ok && depth < 5 {
 		all := true
 		for _, e := range phi.Edges {
